@@ -377,6 +377,8 @@ class Ctx:
                         out.append(z3.Implies(ai[0] == -aj[0], vi == vj))
                     elif fname.startswith("root"):
                         out.append(z3.Implies(z3.And(ai[0] >= 0, aj[0] >= 0, ai[0] < aj[0]), vi < vj))
+                    elif fname == "pow":
+                        out.append(z3.Implies(z3.And(ai[0] == aj[0], ai[0] > 0, ai[1] == -aj[1]), vi * vj == 1))
             if congruence_only:
                 continue
             for args, v in lst:
